@@ -19,7 +19,8 @@ CONSTANTS MaxItems,       \* items the reader will push
           AllowOlder,     \* TRUE: model the deviation that MaPick may serve the older of two pending requests
           MaxReloads,     \* bound on reload actions
           TailN,           \* --tail N: only the last N items stay searchable (0 = option absent)
-          BumpOnTrim      \* TRUE = the code: a snapshot that trimmed the list bumps the minor revision (FALSE: deviation)
+          BumpOnTrim,     \* TRUE = the code: a snapshot that trimmed the list bumps the minor revision (FALSE: deviation)
+          StalePrevCount  \* FALSE = the code since fix F26 (TRUE: the matcher keeps the old count across a cache reset)
 
 None == [none |-> TRUE]
 
@@ -180,7 +181,10 @@ PickCont(r) ==
         m == IF hit THEN [mcache[r.q] EXCEPT !.final = r.final, !.no = r.no, !.snap = r.snap]     \* handed out as the answer to r
              ELSE Merger(r, FilterD("", r.snap, r.deny))
     IN /\ msort' = r.sort /\ mgen' = <<r.major, r.gen, r.trims>>
-       /\ prevCount' = IF ~cleared /\ r.count # prevCount THEN r.count ELSE prevCount
+       (* the count the merger cache is valid for; before fix F26 it was not updated when the cache was cleared for a new    *)
+       (* revision, so a later request of the new revision whose count happened to equal the OLD count got a cached result    *)
+       (* computed for another snapshot (found by TLC on this model: MC_Pipeline_dev_prevcount.cfg)                            *)
+       /\ prevCount' = IF cleared /\ StalePrevCount THEN prevCount ELSE r.count
        /\ IF hit \/ immediate
           THEN /\ ebox' = [ebox EXCEPT !.searchFin = m]
                /\ mcache' = [mc1 EXCEPT ![r.q] = m]
